@@ -5,6 +5,7 @@ package main
 
 import (
 	"bytes"
+	"context"
 	"encoding/base64"
 	"encoding/binary"
 	"encoding/json"
@@ -13,6 +14,7 @@ import (
 	"math"
 	"math/rand"
 	"os"
+	"os/exec"
 	"path/filepath"
 	"runtime"
 	"strings"
@@ -352,6 +354,42 @@ func runGuarded(ep entryPoint, in []byte, deadline time.Duration) (outcome strin
 	}
 }
 
+// callIsolated runs one entry point on one input in a child process (vh call) and reports value | error | panic | timeout.
+func callIsolated(entry string, in []byte) (outcome, msg string) {
+	f, err := os.CreateTemp("", "vh-iso-*")
+	if err != nil {
+		return "error", ""
+	}
+	defer os.Remove(f.Name())
+	f.Write(in)
+	f.Close()
+	self, err := os.Executable()
+	if err != nil {
+		return "error", ""
+	}
+	ctx, cancel := context.WithTimeout(context.Background(), 60*time.Second)
+	defer cancel()
+	cmd := exec.CommandContext(ctx, self, "call", entry, f.Name())
+	var stderr bytes.Buffer
+	cmd.Stderr = &stderr
+	out, err := cmd.Output()
+	if ctx.Err() != nil {
+		return "timeout", "no answer within 60 s"
+	}
+	for _, line := range strings.Split(string(out), "\n") {
+		if strings.HasPrefix(line, "OUTCOME ") {
+			o := strings.TrimPrefix(line, "OUTCOME ")
+			if strings.HasPrefix(o, "panic") {
+				return "panic", o
+			}
+			return o, ""
+		}
+	}
+	// no answer: the process died
+	first := strings.SplitN(stderr.String(), "\n", 3)
+	return "panic", "the process died: " + strings.Join(first[:min(2, len(first))], " | ") + fmt.Sprint(" ", err)
+}
+
 // depAlloc measures what go-ipld-prime's decoders allocate on the input, read the ways the entry points read it: the
 // whole input as DAG-CBOR and as DAG-JSON, the base64-decoded input, the sections of a CAR (header and block data),
 // and byte strings nested in a decoded container (the tokens).  The sum is an upper estimate of the share of a
@@ -676,6 +714,52 @@ func init() {
 		}
 		for name, b := range hostilePairs() {
 			record(epByName(eps, "policy+data.Match"), "hostile-pair", name, b)
+		}
+		// inputs that could take the whole process down (the Go runtime cannot recover from a stack overflow): each call runs
+		// in a process of its own; dying is recorded as a panic
+		{
+			hdr, _ := container.NewWriter().ToCar()
+			zeros := append(append([]byte{}, hdr...), make([]byte, 4<<20)...)
+			iso := map[string][]byte{"car-header-then-4MiB-of-zeros": zeros, "car-4MiB-of-zeros": make([]byte, 4<<20),
+				"cbor-2M-nested-arrays": bytes.Repeat([]byte{0x81}, 2<<20), "json-2M-nested-arrays": bytes.Repeat([]byte{'['}, 2<<20)}
+			iso["carb64-header-then-4MiB-of-zeros"] = []byte(base64.StdEncoding.EncodeToString(zeros))
+			for name, in := range iso {
+				for _, en := range []string{"container.FromCar", "container.FromCarReader", "container.FromCarBase64", "container.FromCarBase64Reader", "container.FromCbor", "token.FromSealed", "token.FromDagJson", "policy.FromDagJson+Match"} {
+					if strings.HasPrefix(name, "carb64") != strings.Contains(en, "Base64") && strings.HasPrefix(name, "car") {
+						continue
+					}
+					if strings.HasPrefix(name, "json") != (strings.Contains(en, "Json")) {
+						continue
+					}
+					t0 := time.Now()
+					outcome, msg := callIsolated(en, in)
+					ev := map[string]any{"ev": "Call", "entry": en, "class": "hostile-structure-isolated", "input": name, "outcome": outcome, "inlen": len(in), "alloc_kib": 0, "ms": time.Since(t0).Milliseconds()}
+					if msg != "" {
+						ev["msg"] = msg
+					}
+					emit(ev)
+				}
+			}
+		}
+		// untrusted text that ends up quoted (and shortened) in error messages: every length 0..24 with a 2-, 3- or 4-byte
+		// character as its last one, as an operator, a selector, a pattern, and a DID
+		for n := 0; n <= 24; n++ {
+			for _, last := range []string{"é", "不", "🔒", "\xff"} {
+				txt := strings.Repeat("n", n) + last
+				q, _ := json.Marshal(txt)
+				if last == "\xff" {
+					q = []byte(`"` + strings.Repeat("n", n) + `\ufffd"`)
+				}
+				record(epByName(eps, "policy.FromDagJson+Match"), "hostile-text", "operator-multibyte-tail", []byte(`[[`+string(q)+`, ".x", 1]]`))
+				record(epByName(eps, "policy.FromDagJson+Match"), "hostile-text", "selector-multibyte-tail", []byte(`[["==", `+string(q)+`, 1]]`))
+				record(epByName(eps, "policy.FromDagJson+Match"), "hostile-text", "selector-multibyte-tail", []byte(`[["==", ".`+string(q[1:])+`, 1]]`))
+				record(epByName(eps, "policy.FromDagJson+Match"), "hostile-text", "pattern-multibyte-tail", []byte(`[["like", ".x", `+string(q[:len(q)-1])+`\\"]]`))
+				record(epByName(eps, "policy.FromDagJson+Match"), "hostile-text", "nested-operator-multibyte-tail", []byte(`[["not", ["and", [[`+string(q)+`, ".x", 1]]]]]`))
+				record(epByName(eps, "selector.Parse+Select"), "hostile-text", "selector-multibyte-tail", []byte("."+txt+"["))
+				record(epByName(eps, "selector.Parse+Select"), "hostile-text", "selector-multibyte-tail", []byte(txt))
+				record(epByName(eps, "did.Parse+PubKey"), "hostile-text", "did-multibyte-tail", []byte("did:key:z"+txt))
+				record(epByName(eps, "did.Parse+PubKey"), "hostile-text", "did-multibyte-tail", []byte(txt))
+			}
 		}
 		for _, txt := range truncatedKeyDids() {
 			record(epByName(eps, "did.Parse+PubKey"), "hostile-text", "did-truncated-key", []byte(txt))
